@@ -336,6 +336,6 @@ def cast_row(ctx, I, b, bb, st, term, fr, to, need):
         return okx, 'under the clip guard 0 <= coordinate < image dimension (u32)'
     if fn in ('asefile::parse::ParseInfo::add_layer', 'asefile::parse::ParseInfo::add_slice', 'asefile::palette::ColorPalette::num_colors',
               'asefile::tileset::TilesetsById::len'):
-        isl = t[0] == 'call' and t[1] in ('std::vec::Vec::len', 'std::collections::HashMap::len')
+        isl = t[0] == 'call' and t[1] in ('std::vec::Vec::len', 'std::collections::HashMap::len') and to in ('u32', 'i64', 'u64')      # not u16 (seed C10-k)
         return isl, 'a collection length bounded only by the input size (one element per >= 6 input bytes): assumed to fit u32 (listed assumption)'
     return False, 'operand range %s not proven to fit %s' % ('?', to)
